@@ -3,6 +3,7 @@ package mon
 import (
 	"fmt"
 	"os"
+	"runtime"
 	"runtime/debug"
 	"sync/atomic"
 	"syscall"
@@ -61,9 +62,23 @@ func RunChild(p Prop, a ChildArgs) int {
 		writeRec(f, &rec{T: "mismatch", Lvl: actual})
 		return ExitMismatch
 	}
-	budget := 300.0
+	// Two Ps: enough for the case, the watchdog and the collector, and it bounds
+	// the CPU time a process can burn per wall second (idle Ps of a Go process
+	// spin for work, which inflated the per-case CPU time thirty-fold on a
+	// loaded 16-core machine when every child had 16 of them). Monitors that
+	// need more (C17) set GOMAXPROCS themselves per case.
+	runtime.GOMAXPROCS(2)
+	budget := 600.0
 	if b, ok := p.(Budgeter); ok {
 		budget = b.CaseCPUBudget(a.Tier)
+	}
+	switch a.Flavour {
+	case "checkptr":
+		budget *= 3
+	case "race":
+		budget *= 10
+	case "asan":
+		budget *= 25
 	}
 	// Backstop: the kernel kills the process if its total CPU time explodes.
 	n := p.NumCases(a.Tier)
